@@ -1,6 +1,6 @@
 """C09  Macro expansion follows C11 6.10.3 and terminates.
 
-Bounded-exhaustive enumeration (simplest first) of (macro definitions, invocation text) cases in eight families:
+Bounded-exhaustive enumeration (simplest first) of (macro definitions, invocation text) cases in ten families:
 
   F1  # / ## bodies        every body of <= L tokens over {p q # ## x , 1} for object-like macros and function-like
                            macros with 0..2 parameters x every argument tuple over ARGS for the parameters the body uses
@@ -23,6 +23,27 @@ Bounded-exhaustive enumeration (simplest first) of (macro definitions, invocatio
                            whether an argument was or was not macro-expanded before it was substituted is visible
                            for every operand position of # and ##, including `placemarker ## q` and results of ##
                            that name another macro (F8_HELPERS: aM xM kM Mx Ma aG xG kG Gx Ga ...)
+
+  F9  recursion through    the digraphs of F2 on names made of two halves (Ra Rb Rc / aR bR cR) with every edge spelled
+      names created by ##  by a paste (F9_STYLES): L ## R (both halves literal), p ## R / L ## p (one half a parameter of
+                           the function-like macro itself), J ( L , R ) and JA ( R ) (through a second macro that pastes
+                           two parameters / a parameter and a literal), uniformly and as ONE pasted edge among literal
+                           ones, plus both halves parameters of the macro itself (#define Ra(p,q) .. p ## q ..);
+                           object-like and function-like nodes, references applied and bare, invocations from node 0
+                           (every labelled digraph in which node 0 reaches all nodes).  6.10.3.4p2 holds for a name
+                           however it came into the replacement list: a cycle closed by ## must stop, and a pasted name
+                           that is not being replaced must be replaced.  A chibicc that loops is killed by the address
+                           space limit (MEM_ALONE; confirmed through harness/c09_limit.c) and the verdict is `hang`.
+  F10 arguments that must  every body of <= L tokens over {p q # ## x} (also empty, also without the parameter) for
+      NOT be expanded      shapes (p) (p,q) (...) (p,...) x arguments F10_ARGS that are not a complete valid invocation
+                           on their own: T(1), T(1,2,3), T() for a two-parameter T, Z(1) for a parameterless Z, an
+                           object-like U whose replacement list is `T (`, bare function-like names, these next to
+                           other tokens, the macro itself with a wrong count; 6.10.3.1p1 expands an argument only
+                           for a parameter that is not an operand of # / ##, so a parameter that is only stringized,
+                           only pasted or not used takes such an argument as spelled (tokens AND acceptance compared);
+                           where the parameter is also used plainly the model calls the case undefined (termination
+                           only).  The side-effect variant (__COUNTER__ as such an argument, the next __COUNTER__
+                           shows whether a value was consumed) lives in F6 (items S K N SD).
 
 Literal arguments of # (6.10.3.2p2: a \\ is inserted before each " and \\ of a string literal or character constant,
 and nowhere else).  In every family in which # can see an argument - F1 bodies holding `# p`, the stringizing shapes of
@@ -55,20 +76,36 @@ Oracle (two-oracle rule): models/cpp.py (Prosser's hide-set algorithm + 6.10.3.1
 AND `gcc -E -P`; a case is judged only where the model says the result is defined and gcc produces the same token
 sequence.  chibicc's `-cc1 -E` text is re-lexed with the model's pp-tokenizer and compared as a spelling sequence.
 Every case runs alone in its own file and packed with some hundred others behind it (unique macro-name suffix
-per case); packed and alone results must agree (chaining differential).  Every chibicc run has a wall timeout; a
-timeout is re-run alone with a 10x limit before it is called a hang.  Cases the model calls undefined are still
+per case); packed and alone results must agree (chaining differential).  Every chibicc run has a wall timeout and an address-space
+limit (a runaway expansion allocates ~1 GB/s); a timeout or a death by signal is re-run alone with
+a 10x limit on CPU time, the launcher measuring peak memory, before it is called a hang (CPU limit or memory limit hit).  Cases the model calls undefined are still
 run alone, judged for termination only (no signal, no hang).
 """
-import hashlib, itertools, os, re, time
+import hashlib, itertools, os, re, resource, subprocess, time
 from vlib import core
 from models import cpp
 
 LEVEL = "exploration"
-BUDGET = {"quick": 300, "thorough": 3600}    # deadlines, not expected times (a loaded machine is 3-5x slower)
+BUDGET = {"quick": 1200, "thorough": 7200}    # deadlines, not expected times (a loaded machine is 3-5x slower)
 
 SHARD = 350                 # cases per packed file
 T_ALONE = 5                 # wall seconds for one alone run; the confirming re-run gets 10x as CPU time
 T_PACKED = 20
+# Every chibicc run has an address-space limit (put on the started process with prlimit: run_capped()): chibicc never
+# frees, so an expansion that does not terminate eats memory at about 1 GB/s; with the limit it dies in a fraction of a
+# second (calloc fails) instead of filling the machine.  A run that dies from a signal with its peak memory above 60 % of the
+# limit (wait4) "does not terminate" (class `hang`).  Any other death from a signal and a hit of the wall limit is re-run once
+# under MEM_CONFIRM / 10x CPU time through harness/c09_limit.c, which reports wait status and peak memory: killed by the CPU limit,
+# or by any signal with the peak above 60 % of the memory limit = "does not terminate" (class `hang`); otherwise the
+# signal is a crash of its own, and a normal exit (a legitimately big case) is judged as usual.
+MEM_ALONE = 256             # MB (the heaviest terminating case of the thorough tier peaks at 15 MB)
+MEM_PACKED = 2048
+MEM_CONFIRM = 1024
+NONTERM_CAP = 3             # a shard stops running cases alone after this many non-termination verdicts (the run is a
+                            # failure anyway; each verdict costs seconds of wall time)
+LAUNCHER_SRC = os.path.join(core.VERIF, "harness", "c09_limit.c")
+LAUNCHER = None             # path of the built launcher (set by run(); handed to the workers)
+ULIMIT = "ulimit -v %d\n" % (MEM_CONFIRM * 1024)     # first line of every replay script
 
 RULE = ("a case = (macro definitions, invocation text); non-trivial iff the reference model performs at least one "
         "macro replacement while expanding it and the standard defines the result; distinct = distinct "
@@ -82,7 +119,16 @@ RULE = ("a case = (macro definitions, invocation text); non-trivial iff the refe
         "literals and character constants of every encoding prefix whose text is empty, holds a backslash escape "
         "(\\n \\\\ \\' \\\" \\0 \\x41), a double quote, a single quote or an argument delimiter, alone and in phrases with other "
         "tokens, lone backslashes and macro-produced literals (coverage key stringize_literal_alphabet); the stringized "
-        "text is compared byte for byte and must be one string literal")
+        "text is compared byte for byte and must be one string literal.  Recursion through names that ## CREATES "
+        "(F9): every digraph on 1-3 macro names (object-like / function-like, all edge sets on <= 2 names, bounded "
+        "edge count on 3) with the edges spelled as a paste of two literal halves, of a parameter and a literal half, "
+        "through a second macro pasting two parameters or a parameter and a literal, one pasted edge among literal "
+        "ones, and both halves parameters of the macro itself (coverage key f9_pasted_recursion); termination is a "
+        "verdict under an address-space limit (coverage key limits).  Arguments that 6.10.3.1p1 does NOT expand "
+        "(F10, F6): parameter only operand of #, only operand of ##, unused, and also used plainly x argument texts "
+        "that are no complete valid invocation on their own (wrong argument count, object-like macro ending in `T (`, "
+        "bare function-like name) or advance __COUNTER__ (coverage key f10_unexpanded_arguments); tokens and "
+        "acceptance are compared")
 
 # ------------------------------------------------------------------------------------------------------------
 # enumerators.  Macro names carry '@', replaced by a per-case suffix when the case is rendered.
@@ -452,9 +498,14 @@ def gen_f5(tier):
 F6_ITEMS = ["__COUNTER__", "__LINE__", "__FILE__", "__BASE_FILE__", "C@", "L@", "I@ ( __COUNTER__ )",
             "I@ ( __LINE__ )", "D@ ( __COUNTER__ )", "S@ ( __LINE__ )", "X@ ( __LINE__ )", "X@ ( __COUNTER__ )",
             "P@ ( __LINE__ )", "X@ ( __FILE__ )", "I@ (\n__LINE__\n)", "D@ ( C@ )", "J@ ( a , __COUNTER__ )",
-            "J@ ( a , __LINE__ )", "\n"]
+            "J@ ( a , __LINE__ )", "\n",
+            # arguments that must not be expanded (6.10.3.1p1): operand of # only, of ## only, not used at all, and both
+            # ways (# p p: expanded once); an expansion that should not happen consumes a value of __COUNTER__, which
+            # the next item of the sequence shows
+            "S@ ( __COUNTER__ )", "K@ ( a , __COUNTER__ )", "N@ ( __COUNTER__ )", "SD@ ( __COUNTER__ )"]
 F6_DEFS = {"C@": "#define C@ __COUNTER__", "L@": "#define L@ __LINE__", "I@": "#define I@(p) p",
            "D@": "#define D@(p) p p", "S@": "#define S@(p) # p", "X@": "#define X@(p) S@ ( p )",
+           "N@": "#define N@(p) nn", "SD@": "#define SD@(p) # p p",
            "P@": "#define P@(p) p ## p", "J@": "#define J@(p,q) K@ ( p , q )", "K@": "#define K@(p,q) p ## q"}
 F6_BOUND = {"quick": 2, "thorough": 3}
 
@@ -641,7 +692,188 @@ def gen_f8(tier):
                         yield ("F8", cid, tuple(defs), inv)
 
 
-GENERATORS = [("F8", gen_f8), ("F7", gen_f7), ("F5", gen_f5), ("F6", gen_f6), ("F2", gen_f2), ("F4", gen_f4), ("F3", gen_f3), ("F1", gen_f1)]
+# F9: recursion digraphs whose edges go through a name that ## CREATES (6.10.3.4p2 holds for the name of a macro being
+# replaced however the name came to be in the replacement list; 6.10.3.3p3: the token resulting from ## "is available
+# for further macro replacement" - and only as far as its name is not being replaced).  Nodes are object-like or
+# function-like macros as in F2; every edge i -> j is spelled in the replacement list of i in one of F9_STYLES.
+# The names are made of two halves so that one half can come from a parameter: `left`: Ra Rb Rc (common left half R, a
+# parameter supplies R), `right`: aR bR cR (common right half; the parameter is the right operand).
+F9_NAMINGS = {
+    "left": {"names": ["Ra@", "Rb@", "Rc@"], "halves": [("R", "a@"), ("R", "b@"), ("R", "c@")], "side": "L"},
+    "right": {"names": ["a@R", "b@R", "c@R"], "halves": [("a@", "R"), ("b@", "R"), ("c@", "R")], "side": "R"},
+}
+F9_STYLES = {
+    "lit": "the name itself (only next to pasted edges; digraphs with literal edges only are F2)",
+    "LL": "both halves literal: L ## R",
+    "PH": "one half a parameter of the function-like macro the edge starts from: p ## R (naming left) / L ## p (naming "
+          "right); in an object-like macro: L ## R",
+    "J2": "through a second macro, both halves parameters: J ( L , R ) with #define J(y,z) y ## z",
+    "J1": "through a second macro, one half a parameter: JA ( R ) with #define JA(z) z ## a (naming left) / a ## z",
+    "PP": "both halves parameters of the macro itself (one name): #define Ra(p,q) .. p ## q .. invoked as Ra ( R , a )",
+}
+# per tier and naming: (max names, max edges for three names, uniform styles, styles of a single pasted edge among
+# literal ones for up to two names, the same for three names, invocations for up to two names, for three names)
+F9_BOUND = {"quick": {"left": (3, 3, ["LL", "PH", "J2", "J1"], ["LL", "PH", "J2", "J1"], [], 4, 2),
+                      "right": (2, 0, ["LL", "PH", "J1"], ["LL", "PH"], [], 3, 0)},
+            "thorough": {"left": (3, 4, ["LL", "PH", "J2", "J1"], ["LL", "PH", "J2", "J1"], ["LL", "J2"], 5, 3),
+                         "right": (3, 3, ["LL", "PH", "J2", "J1"], ["LL", "PH", "J2", "J1"], ["LL"], 5, 2)}}
+
+
+def f9_ref(nm, j, style, src_func):
+    """Spelling of an edge to node j and the helper definitions it needs."""
+    L, R = nm["halves"][j]
+    if style == "lit":
+        return nm["names"][j], ()
+    if style == "LL" or (style == "PH" and not src_func):
+        return "%s ## %s" % (L, R), ()
+    if style == "PH":
+        return ("p ## %s" % R if nm["side"] == "L" else "%s ## p" % L), ()
+    if style == "J2":
+        return "J@ ( %s , %s )" % (L, R), ("#define J@(y,z) y ## z",)
+    if style == "J1":
+        h = "J%s@" % "ABC"[j]
+        if nm["side"] == "L":
+            return "%s ( %s )" % (h, L), ("#define %s(z) z ## %s" % (h, R),)
+        return "%s ( %s )" % (h, R), ("#define %s(z) %s ## z" % (h, L),)
+    raise ValueError(style)
+
+
+def f9_reachable(n, edges):
+    seen, todo = {0}, [0]
+    while todo:
+        a = todo.pop()
+        for (x, y) in edges:
+            if x == a and y not in seen:
+                seen.add(y)
+                todo.append(y)
+    return len(seen) == n
+
+
+def gen_f9(tier):
+    seen = set()
+    for naming in ("left", "right"):
+        nm = F9_NAMINGS[naming]
+        nmax, emax3, uniform, single2, single3, ninv2, ninv3 = F9_BOUND[tier][naming]
+        common = "R"
+        for n in range(1, nmax + 1):
+            names = nm["names"][:n]
+            pairs = [(i, j) for i in range(n) for j in range(n)]
+            for kinds in itertools.product("of", repeat=n):
+                for ne in range(1, len(pairs) + 1):
+                    if n == 3 and ne > emax3:
+                        break
+                    for edges in itertools.combinations(pairs, ne):
+                        # every labelled digraph is enumerated, so invocations start at node 0 only and every node
+                        # must be reachable from it (otherwise the case is one on fewer names)
+                        if not f9_reachable(n, edges):
+                            continue
+                        assigns = [(u, tuple(u for _ in edges)) for u in uniform]
+                        for sst in (single2 if n < 3 else single3):
+                            for k in range(ne):
+                                if ne > 1:
+                                    assigns.append(("%s@%d" % (sst, k),
+                                                    tuple(sst if x == k else "lit" for x in range(ne))))
+                        has_fn_target = any(kinds[j] == "f" for _, j in edges)
+                        for aname, styles in assigns:
+                            for rstyle in (("applied", "bare") if has_fn_target else ("applied",)):
+                                defs, helpers = [], []
+                                for i in range(n):
+                                    refs = []
+                                    for (a, j), st in zip(edges, styles):
+                                        if a != i:
+                                            continue
+                                        r, h = f9_ref(nm, j, st, kinds[i] == "f")
+                                        helpers.extend(x for x in h if x not in helpers)
+                                        if kinds[j] == "f" and rstyle == "applied":
+                                            r += " ( %s )" % ("p" if kinds[i] == "f" else common)
+                                        refs.append(r)
+                                    tag = "abc"[i]
+                                    if kinds[i] == "f":
+                                        defs.append("#define %s(p) %s p %s" % (names[i], tag, " ".join(refs)))
+                                    else:
+                                        defs.append("#define %s %s %s" % (names[i], tag, " ".join(refs)))
+                                defs = tuple(defs + sorted(helpers))
+                                if defs in seen:
+                                    continue          # PH in object-like macros is LL
+                                seen.add(defs)
+                                S = names[0]
+                                invs = [S, "%s ( %s )" % (S, common), "%s ( %s ) ( %s )" % (S, common, common),
+                                        "%s ( %s ( %s ) ) w" % (S, S, common), "%s ( x ) ( %s )" % (S, common)]
+                                for inv in invs[:ninv2 if n < 3 else ninv3]:
+                                    cid = "F9/%s/%s/%s/%s/%s/%s" % (naming, "".join(kinds), ",".join("%d%d" % e for e in edges),
+                                                                    aname, rstyle, inv.replace("@", ""))
+                                    yield ("F9", cid, defs, inv)
+        # one name, both halves parameters of the macro itself
+        L, R = nm["halves"][0]
+        S = nm["names"][0]
+        for ref, rname in (("p ## q ( p , q )", "applied"), ("p ## q", "bare"), ("q ## p ( q , p )", "swapped")):
+            defs = ("#define %s(p,q) a p q %s" % (S, ref),)
+            a1, a2 = (L, R) if rname != "swapped" else (R, L)
+            for inv in ("%s ( %s , %s )" % (S, a1, a2), "%s ( %s , %s ) ( %s , %s )" % (S, a1, a2, a1, a2),
+                        "%s ( %s , %s ) ( x , y ) ( %s , %s )" % (S, a1, a2, a1, a2), "%s ( %s , %s )" % (S, a2, a1), S):
+                yield ("F9", "F9/%s/PP/%s/%s" % (naming, rname, inv.replace("@", "")), defs, inv)
+
+
+# F10: arguments that must NOT be macro-expanded.  6.10.3.1p1: an argument is completely macro replaced only for a
+# parameter that is not an operand of # or ## - so for a parameter that occurs in the replacement list only as such an
+# operand, or not at all, the argument is used as spelled (or dropped) and an "expansion on its own" must never happen.
+# It would be observable when the argument alone is not a complete valid invocation (F10_ARGS: wrong number of
+# arguments for a function-like macro, an object-like macro whose replacement list ends in `T (`), which a compiler
+# that expands every argument up front rejects, or when it has a side effect (__COUNTER__: family F6).
+# Bodies: every replacement list of <= L tokens over {p q # ## x}, including the empty one and those in which a
+# parameter does not occur; shapes (p), (p,q), (...), (p,...) (q stands for __VA_ARGS__ in the variadic shapes).
+F10_HELPERS = [("T@", "#define T@(y,z) [ y | z ]"), ("Z@", "#define Z@() zz"), ("U@", "#define U@ T@ ("),
+               ("G@", "#define G@(z) < z >")]
+F10_ARGS = ["T@ ( 1 )", "T@ ( 1 , 2 , 3 )", "T@ ( )", "Z@ ( 1 )", "U@", "U@ 1", "a T@ ( 1 )", "T@ ( 1 ) a",
+            "F@ ( 1 , ( 2 ) , 3 )", "G@", "T@", "T@ ( 1 , 2 )", "a"]
+F10_ARGS_THOROUGH = ["( T@ ( 1 ) )", "T@ ( T@ ( 1 ) , 2 )", "T@ ( 1 , 2 ) ( 3 )", "G@ ( T@ ( ) )", "U@ 1 , 2", "T@\n( 1 )", "Z@ ( , )"]
+F10_ALPHA = ["p", "q", "#", "##", "x"]
+# per tier: (max body length for one parameter, for two parameters with the full pair grid, for two parameters with
+# bodies that hold both parameters)
+F10_BOUND = {"quick": (3, 2, 3), "thorough": (4, 3, 4)}
+
+
+def gen_f10(tier):
+    l1, l2, l2both = F10_BOUND[tier]
+    args = F10_ARGS + (F10_ARGS_THOROUGH if tier != "quick" else [])
+    shapes = [("f1", "F@(p)", ("p",), {}), ("f2", "F@(p,q)", ("p", "q"), {}),
+              ("v0", "F@(...)", ("p",), {"p": "__VA_ARGS__"}), ("v1", "F@(p,...)", ("p", "q"), {"q": "__VA_ARGS__"})]
+    for sname, head, params, ren in shapes:
+        two = len(params) == 2
+        for L in range(0, (max(l2, l2both) if two else l1) + 1):
+            for body in itertools.product(F10_ALPHA, repeat=L):
+                if "q" in body and not two:
+                    continue
+                if L and not f1_body_ok(body, params, True):
+                    continue
+                if two and L > l2 and not ("p" in body and "q" in body):
+                    continue
+                if two and L and "p" not in body and "q" not in body:
+                    continue          # neither parameter occurs: the one-parameter shapes cover "unused"
+                btxt = " ".join(ren.get(t, t) for t in body)
+                if two:
+                    grid = []
+                    for a in args:
+                        if sname == "f2" and "," in a and "(" not in a:
+                            continue
+                        for pr in ((a, "a"), ("a", a), (a, a)):
+                            if pr not in grid:
+                                grid.append(pr)
+                    if sname == "v1":
+                        grid += [("a", "T@ ( 1 ) , U@"), ("U@", None), ("T@ ( 1 )", None), ("a", "U@ , T@ ( )")]
+                else:
+                    grid = [(a,) for a in args if not (sname == "f1" and "," in a and "(" not in a)]
+                    if sname == "v0":
+                        grid += [("T@ ( 1 ) , U@",), ("U@ , T@ ( )",)]
+                for combo in grid:
+                    inv = "F@ ( %s )" % " , ".join(c for c in combo if c is not None)
+                    defs = ["#define %s %s" % (head, btxt)]
+                    defs.extend(d for trig, d in F10_HELPERS if trig in inv or (trig == "T@" and "U@" in inv))
+                    cid = "F10/%s/%s/%s" % (sname, " ".join(body), "|".join("-" if c is None else c for c in combo))
+                    yield ("F10", cid.replace("@", "").replace("\n", " NL "), tuple(defs), inv)
+
+
+GENERATORS = [("F9", gen_f9), ("F10", gen_f10), ("F8", gen_f8), ("F7", gen_f7), ("F5", gen_f5), ("F6", gen_f6), ("F2", gen_f2), ("F4", gen_f4), ("F3", gen_f3), ("F1", gen_f1)]
 
 # ------------------------------------------------------------------------------------------------------------
 # rendering and running
@@ -697,7 +929,10 @@ KEY_FEATURES = {"stringize", "stringize-across-newline", "stringize-va-opt", "pa
                 "invocation-spans-lines", "variadic-missing", "variadic-empty", "rescan-invocation-with-mixed-hidesets",
                 "funclike-name-at-end-of-argument", "redefinition", "parameter-used-twice-expanded",
                 "builtin:__COUNTER__", "builtin:__LINE__", "builtin:__FILE__", "builtin:__BASE_FILE__",
-                "stringize-string-literal", "stringize-character-constant", "stringize-result-of-#"}
+                "stringize-string-literal", "stringize-character-constant", "stringize-result-of-#",
+                # F9 / F10 / F6: a name created by ## that is being replaced; arguments that must not be expanded
+                "hideset-blocked-name-created-by-##", "unexpanded-argument:not-a-valid-invocation-alone",
+                "unexpanded-argument:advances-__COUNTER__"}
 
 
 def feature_class(features):
@@ -836,42 +1071,91 @@ def classify(case, features, exp, status, got, text=None, mark=None):
     return "C09|%s|%s|%s" % (fam, fc, dc)
 
 
-def run_chibicc(chibicc, wd, text, timeout, name="c.c"):
+def run_chibicc(chibicc, wd, text, timeout, name="c.c", mem=MEM_ALONE):
     with open(os.path.join(wd, name), "w") as f:
         f.write(text)
-    st, out, err = core.run_limited([chibicc, "-cc1", "-E", "-cc1-input", name, name], cwd=wd, timeout=timeout)
-    return st, out, err
+    return run_capped([chibicc, "-cc1", "-E", "-cc1-input", name, name], wd, timeout, mem)
 
 
-def confirm_hang(chibicc, wd, text, timeout):
-    """Re-run alone with a 10x limit, this time on CPU time (a loaded machine must not look like a hang).
-    Returns (hang, status, stdout); status None = could not be decided (harness overloaded)."""
-    with open(os.path.join(wd, "hang.c"), "w") as f:
+class _Popen(subprocess.Popen):
+    """Popen that keeps the resource usage of the child (peak memory).  Uses wait4 where subprocess uses waitpid; if
+    the internals of subprocess ever change, `rusage` stays None and the caller falls back to the confirming re-run."""
+    rusage = None
+
+    def _try_wait(self, wait_flags):
+        try:
+            pid, sts, ru = os.wait4(self.pid, wait_flags)
+            if pid == self.pid:
+                self.rusage = ru
+        except ChildProcessError:
+            pid, sts = self.pid, 0
+        return (pid, sts)
+
+
+LAST_PEAK_KB = None         # peak resident set of the last run_capped() child, None if unknown
+
+
+def run_capped(argv, cwd, timeout, mem_mb):
+    """core.run_limited() with an address-space limit that costs no extra process and no fork: the limit is put on the
+    child from outside (prlimit) as soon as it has been started.  Returns (status, stdout, stderr)."""
+    global LAST_PEAK_KB
+    LAST_PEAK_KB = None
+    p = _Popen(argv, cwd=cwd, stdout=subprocess.PIPE, stderr=subprocess.PIPE)
+    try:
+        resource.prlimit(p.pid, resource.RLIMIT_AS, (mem_mb << 20, mem_mb << 20))
+    except OSError:
+        pass                  # already gone
+    try:
+        out, err = p.communicate(timeout=timeout)
+    except subprocess.TimeoutExpired:
+        p.kill()
+        out, err = p.communicate()
+        return "timeout", out.decode("utf-8", "replace"), err.decode("utf-8", "replace")
+    if p.rusage is not None:
+        LAST_PEAK_KB = p.rusage.ru_maxrss
+    return p.returncode, out.decode("utf-8", "replace"), err.decode("utf-8", "replace")
+
+
+def confirm_hang(chibicc, wd, text, timeout, name="c.c"):
+    """Re-run (same file name: __FILE__ is part of the result) under MEM_CONFIRM and a 10x limit, this time on CPU time (a loaded machine must not look like a
+    hang), the launcher reporting wait status and peak memory.
+    Returns (hang, status, stdout); hang: killed by the CPU limit, or died with its memory at the limit (a runaway
+    expansion); status None = could not be decided (harness overloaded)."""
+    with open(os.path.join(wd, name), "w") as f:
         f.write(text)
-    st, out, err = core.run_limited([chibicc, "-cc1", "-E", "-cc1-input", "hang.c", "hang.c"], cwd=wd,
-                                    cpu=timeout * 10, timeout=timeout * 150, limits=True)
-    if st in (-24, -9):
-        return True, st, out
-    if st == "timeout":
+    rep = os.path.join(wd, "hang.rep")
+    if os.path.exists(rep):
+        os.unlink(rep)
+    st, out, err = core.run_limited([LAUNCHER, str(MEM_CONFIRM), str(timeout * 10), "hang.rep", chibicc, "-cc1", "-E",
+                                     "-cc1-input", name, name], cwd=wd, timeout=timeout * 150)
+    if st == "timeout" or not os.path.exists(rep):
         return False, None, ""
-    return False, st, out
+    m = re.match(r"([ES])(\d+) (\d+)", open(rep).read())
+    if st != 0 or not m:
+        raise core.HarnessError("c09_limit failed: status %s %s" % (st, err[-200:]))
+    code, peak_kb = int(m.group(2)), int(m.group(3))
+    if m.group(1) == "E":
+        return False, code, out
+    if code in (24, 9) or peak_kb * 1024 >= 0.6 * (MEM_CONFIRM << 20):
+        return True, -code, out
+    return False, -code, out
 
 
 def split_markers(text):
     return cpp.split_after_marker(cpp.relex(text), MARK)
 
 
-REPLAY_TOKENS = ("$CHIBICC -cc1 -E -cc1-input c.c c.c > out.txt 2> err.txt; st=$?\n"
+REPLAY_TOKENS = (ULIMIT + "$CHIBICC -cc1 -E -cc1-input c.c c.c > out.txt 2> err.txt; st=$?\n"
                  "[ $st -ne 0 ] && { echo \"chibicc exit $st\"; cat err.txt; exit 1; }\n"
                  "python3 \"$VERIF/models/cpp.py\" relex --after %(mark)s --until-prefix " + MARK + " < out.txt > got.txt\n"
                  "cmp -s got.txt expected.txt && exit 0\n"
                  "echo 'token sequence differs from the model/gcc result:'; diff expected.txt got.txt; exit 1")
-REPLAY_STATUS = ("timeout 60 $CHIBICC -cc1 -E -cc1-input c.c c.c > out.txt 2> err.txt; st=$?\n"
+REPLAY_STATUS = (ULIMIT + "timeout 60 $CHIBICC -cc1 -E -cc1-input c.c c.c > out.txt 2> err.txt; st=$?\n"
                  "[ $st -eq 0 ] && exit 0\n"
                  "echo \"chibicc status $st on valid input\"; cat err.txt; exit 1")
-REPLAY_TERM = ("timeout 60 $CHIBICC -cc1 -E -cc1-input c.c c.c > out.txt 2> err.txt; st=$?\n"
+REPLAY_TERM = (ULIMIT + "timeout 60 $CHIBICC -cc1 -E -cc1-input c.c c.c > out.txt 2> err.txt; st=$?\n"
                "[ $st -ge 124 ] && { echo \"chibicc status $st\"; exit 1; }\nexit 0")
-REPLAY_CHAIN = ("$CHIBICC -cc1 -E -cc1-input alone.c alone.c > a.txt 2> a.err; sa=$?\n"
+REPLAY_CHAIN = (ULIMIT + "$CHIBICC -cc1 -E -cc1-input alone.c alone.c > a.txt 2> a.err; sa=$?\n"
                 "$CHIBICC -cc1 -E -cc1-input packed.c packed.c > p.txt 2> p.err; sp=$?\n"
                 "[ $sa -ne $sp ] && { echo \"status alone=$sa packed=$sp\"; cat p.err; exit 1; }\n"
                 "python3 \"$VERIF/models/cpp.py\" relex --after %(mark)s --until-prefix " + MARK + " < a.txt > ta.txt\n"
@@ -892,12 +1176,14 @@ def _viol(sig, desc, files, replay):
 
 def _shard(args):
     """Worker: one shard of cases = one packed file.  Returns counters and violation records."""
-    chibicc, wd, shard_no, items, deadline, dynamic = args
+    global LAUNCHER
+    chibicc, wd, shard_no, items, deadline, dynamic, LAUNCHER = args
     res = {"cases": 0, "judged": 0, "nontrivial_hashes": [], "skipped_undefined": {}, "oracle_disagreements": 0,
            "ref_rejected": 0, "chibicc_runs": 0, "gcc_runs": 0, "viol": [], "viol_counts": {}, "done": False,
            "undefined_termination_checked": 0, "chain_judged": 0, "features": {}, "samples": [],
            "unmodelled": 0, "dis_samples": [], "outcomes": {}, "model_errors": [], "harness_timeouts": 0,
-           "undefined_same_definition_not_rerun": 0, "stringize_judged": 0}
+           "undefined_same_definition_not_rerun": 0, "stringize_judged": 0, "nonterminating": 0,
+           "stopped_after_nontermination": 0, "dynamic_packed_not_judged_after_deviation": 0}
     if time.time() > deadline:
         return res
     os.makedirs(wd, exist_ok=True)
@@ -991,12 +1277,23 @@ def _shard(args):
                 res["undefined_same_definition_not_rerun"] += 1
                 continue
             seen_bad_defs.add(key)
+        if res["nonterminating"] >= NONTERM_CAP:
+            res["stopped_after_nontermination"] = 1
+            return res
         st, out, err = run_chibicc(chibicc, wd, r["text"], T_ALONE)
         res["chibicc_runs"] += 1
-        if st == "timeout":
+        if isinstance(st, int) and st < 0 and LAST_PEAK_KB is not None and LAST_PEAK_KB * 1024 >= 0.6 * (MEM_ALONE << 20):
+            # died with its memory at the limit: a case of at most a few hundred bytes (the heaviest terminating case of
+            # the thorough tier peaks at 15 MB) that needs more than MEM_ALONE does not terminate
+            st, out = "hang", ""
+            res["nonterminating"] += 1
+        elif st == "timeout" or (isinstance(st, int) and st < 0):
+            # wall limit, or died from a signal: decide with limits on CPU time and memory, and measurements
             hang, st2, out2 = confirm_hang(chibicc, wd, r["text"], T_ALONE)
             res["chibicc_runs"] += 1
             st, out = ("hang", "") if hang else (st2, out2)
+            if hang:
+                res["nonterminating"] += 1
             if st is None:
                 res["harness_timeouts"] += 1
                 r["st"] = None
@@ -1083,7 +1380,7 @@ def _shard(args):
 
     def run_packed(rs):
         text, _ = pack(rs)
-        st, out, err = run_chibicc(chibicc, wd, text, T_PACKED, name="c.c")
+        st, out, err = run_chibicc(chibicc, wd, text, T_PACKED, name="c.c", mem=MEM_PACKED)
         res["chibicc_runs"] += 1
         if st == "timeout":
             hang, st, out = confirm_hang(chibicc, wd, text, T_PACKED)
@@ -1158,7 +1455,10 @@ def _shard(args):
                         len(rs), " ".join(r["exp_packed"]), " ".join(gp), ctext),
                         {"c.c": text, "expected.txt": "".join(x + "\n" for x in r["exp_packed"])},
                         REPLAY_TOKENS % {"mark": r["mark"]})
-                    continue
+                    # the cases of the file share __COUNTER__: after the first deviation every later expectation is
+                    # shifted, so the rest of the file is not judged (each case was judged alone already)
+                    res["dynamic_packed_not_judged_after_deviation"] += len(rs) - k - 1
+                    break
                 else:
                     sig = "C09|chain|%s|packed-result-differs-from-alone:%s" % (fam, deviation_class(r["got"], gp))
                 desc = "alone [%s] packed [%s]: %s" % (canon(" ".join(r["got"] or []), r["serial"]),
@@ -1179,6 +1479,11 @@ def run(ctx):
     serial = 0
     fam_counts = {}
     work = []
+    global LAUNCHER
+    LAUNCHER = os.path.join(ctx.work, "c09_limit")
+    rc, o, e = core.sh(["gcc", "-O1", "-o", LAUNCHER, LAUNCHER_SRC])
+    if rc != 0:
+        raise core.HarnessError("harness/c09_limit.c does not build:\n" + e[-2000:])
     only = os.environ.get("VERIF_C09_FAMILIES")          # development aid; evidence then says exhaustive:false
     for fam, gen in GENERATORS:
         if only and fam not in only.split(","):
@@ -1199,11 +1504,12 @@ def run(ctx):
     if ctx.seed:
         import random
         random.Random(ctx.seed).shuffle(order)
-    args = [(ctx.chibicc, os.path.join(ctx.work, "s%d" % i), i, work[i][1], deadline, work[i][0] == "F6") for i in order]
+    args = [(ctx.chibicc, os.path.join(ctx.work, "s%d" % i), i, work[i][1], deadline, work[i][0] == "F6", LAUNCHER) for i in order]
     results = core.pmap(_shard, args)
     tot = {"cases": 0, "judged": 0, "oracle_disagreements": 0, "ref_rejected": 0, "chibicc_runs": 0, "gcc_runs": 0,
            "undefined_termination_checked": 0, "chain_judged": 0, "unmodelled": 0, "harness_timeouts": 0,
-           "undefined_same_definition_not_rerun": 0, "stringize_judged": 0}
+           "undefined_same_definition_not_rerun": 0, "stringize_judged": 0, "nonterminating": 0,
+           "stopped_after_nontermination": 0, "dynamic_packed_not_judged_after_deviation": 0}
     skipped = {}
     feats = {}
     outcomes = {}
@@ -1244,7 +1550,9 @@ def run(ctx):
     if merr:
         raise core.HarnessError("reference model raised on %d cases, e.g. %s" % (len(merr), merr[:3]))
     if unfinished:
-        ctx.incomplete("%d of %d shards not finished before the deadline" % (unfinished, len(work)))
+        ctx.incomplete("%d of %d shards not finished before the deadline%s" % (
+            unfinished, len(work), " (%d of them stopped after %d non-termination verdicts)" % (
+                tot["stopped_after_nontermination"], NONTERM_CAP) if tot["stopped_after_nontermination"] else ""))
     ctx.cover(evaluations=tot["cases"] - tot["undefined_same_definition_not_rerun"], enumerated_cases=tot["cases"], judged=tot["judged"], distinct_nontrivial=len(hashes), rule=RULE,
               skipped_undefined=sum(skipped.values()), skipped_undefined_by_reason=skipped,
               oracle_disagreements=tot["oracle_disagreements"], ref_rejected=tot["ref_rejected"],
@@ -1256,7 +1564,24 @@ def run(ctx):
               bounds_completed={"F1": F1_BOUND[tier], "F2": F2_BOUND[tier], "F3": F3_BOUND[tier], "F4": F4_BOUND[tier],
                                 "F6": F6_BOUND[tier], "F7": F7_BOUND[tier],
                                 "F7-renamed": dict(("%s-%s" % k, v) for k, v in F7_RENAMED_BOUND[tier].items()),
-                                "F8": F8_BOUND[tier]} if not unfinished else "partial",
+                                "F8": F8_BOUND[tier], "F9": F9_BOUND[tier], "F10": F10_BOUND[tier]} if not unfinished else "partial",
+              nonterminating=tot["nonterminating"],
+              limits={"alone": "%d MB address space, %d s wall" % (MEM_ALONE, T_ALONE),
+                      "packed": "%d MB, %d s wall" % (MEM_PACKED, T_PACKED),
+                      "confirming re-run": "%d MB, 10x the wall limit as CPU seconds; non-termination = killed by the CPU "
+                                           "limit or dead with peak memory above 60 %% of the limit" % MEM_CONFIRM},
+              f9_pasted_recursion={"name_sets": dict((k, v["names"]) for k, v in F9_NAMINGS.items()),
+                                   "edge_styles": F9_STYLES,
+                                   "bound": "per naming: (max names, max edges on three names, uniform edge styles, styles of "
+                                            "one pasted edge among literal ones on <= 2 names, on 3 names, invocations per "
+                                            "digraph on <= 2 names, on 3 names); all edge sets on <= 2 names; node 0 is the "
+                                            "start and reaches every node"},
+              f10_unexpanded_arguments={"arguments": F10_ARGS + (F10_ARGS_THOROUGH if tier != "quick" else []),
+                                        "helpers": [d for _, d in F10_HELPERS], "body_alphabet": F10_ALPHA,
+                                        "shapes": ["(p)", "(p,q)", "(...)", "(p,...)"],
+                                        "bound": "(max body tokens one parameter, two parameters full pair grid, two "
+                                                 "parameters bodies holding both); pair grid: (A,a) (a,A) (A,A)",
+                                        "__COUNTER__": "family F6 items S(# p) K(p ## q) N(unused) SD(# p p)"},
               name_sets={"F2": dict((k, F2_NAMINGS[k]) for k in F2_BOUND[tier]), "F7": F7_RENAMINGS},
               f8_inner_macros=dict((k, F8_INNER_DEFS[k]) for k in F8_INNERS[tier]), f8_arguments=F8_ARGS[tier],
               stringize_judged_cases=tot["stringize_judged"],
@@ -1298,7 +1623,12 @@ def run(ctx):
                 "stringize-character-constant-containing-backslash", "stringize-string-literal-containing-double-quote",
                 "stringize-character-constant-containing-double-quote", "stringize-string-literal-containing-single-quote",
                 "stringize-character-constant-containing-single-quote", "stringize-empty-string-literal",
-                "stringize-result-of-#", "stringize-literal-after-macro-replacement", "stringize-backslash-outside-literal"]
+                "stringize-result-of-#", "stringize-literal-after-macro-replacement", "stringize-backslash-outside-literal",
+                # names created by ##: replaced where the name is not being replaced, left alone where it is (F9)
+                "macro-name-created-by-##-replaced", "hideset-blocked-name-created-by-##",
+                # arguments that 6.10.3.1p1 does not expand and whose expansion alone would be observable (F10, F6)
+                "unexpanded-argument:not-a-valid-invocation-alone", "unexpanded-argument:advances-__COUNTER__",
+                "unexpanded-argument-of:#-operand", "unexpanded-argument-of:##-operand", "unexpanded-argument-of:unused"]
         missing = [f for f in need if not feats.get(f)]
         if missing:
             raise core.HarnessError("vacuous: mechanisms never exercised by a judged case: %s" % missing)
